@@ -10,7 +10,7 @@ using namespace squids;
 
 enum { OP_DEFAULT=1, OP_SIZED, OP_EXTERNAL, OP_FROMLIST, OP_ALIGNED, OP_COPYCON, OP_MOVECON, OP_DESTROY, OP_COPYASSIGN, OP_MOVEASSIGN,
        OP_SETBACKING, OP_EXPR, OP_PLAININC, OP_PLAINDEC, OP_SCALE, OP_DIVIDE, OP_EQ, OP_TRACE, OP_FILL, OP_FROMMATRIX, OP_FACTORY,
-       OP_ROTMAT, OP_CLEARCACHE, OP_PRINT, OP_GETMATRIX, OP_COMPONENTS, OP_ROTATE, OP_UNARYVIEW, OP_EIGEN, OP_ELEMENTWISE_USER };
+       OP_ROTMAT, OP_CLEARCACHE, OP_PRINT, OP_GETMATRIX, OP_COMPONENTS, OP_ROTATE, OP_UNARYVIEW, OP_EIGEN, OP_ELEMENTWISE_USER, OP_CONVERT };
 
 struct user_op{ double operator()(double a, double b) const { return a*b+a; } };
 
@@ -107,6 +107,17 @@ extern "C" int h_op(unsigned op, void* tp, void* s1p, void* s2p, unsigned x, uns
       case OP_COMPONENTS: { std::vector<double> v=t->GetComponents(); res[0]=v.size(); for(size_t i=0;i<v.size();i++) ext[i]=v[i]; } break;
       case OP_ROTATE: *t = s1->Rotate(x,y,c,0.5*c); break;
       case OP_UNARYVIEW: if(x==0) t->Transpose(); else if(x==1) *t = s1->Real(); else *t = s1->Imag(); break;
+      case OP_CONVERT: // implicit proxy -> SU_vector conversions (sub-expressions)
+        switch(x){
+          case 0: { SU_vector r = (*s1)+(*s2); new(tp) SU_vector(std::move(r)); } break;
+          case 1: *t = iCommutator((*s1)+(*s2),*s1); break;
+          case 2: *t = -((*s1)+(*s2)); break;
+          case 3: *t = ((*s1)+(*s2))*c; break;
+          case 4: *t = ((*s1)+(*s2))+((*s1)-(*s2)); break;
+          case 5: { SU_vector r = iCommutator(*s1,*s2); new(tp) SU_vector(std::move(r)); } break;
+          default: return 3;
+        }
+        break;
       default: return 3;
     }
     return 0;
@@ -130,6 +141,19 @@ extern "C" unsigned long h_addr0(void* tp){
 extern "C" unsigned h_sizeof(){ return sizeof(SU_vector); }
 
 #ifdef POOL_MAIN
+#include <cstdlib>
+#include <cstdio>
+// allocation ledger and failure injection (env POOL_FAIL_STEP / POOL_FAIL_J: fail the J-th operator new/new[] call made during step STEP)
+static long g_live=0, g_calls_in_step=0; static int g_fail_j=-1; static bool g_armed=false;
+static void* counted_alloc(size_t n){
+  if(g_armed){ g_calls_in_step++; if(g_calls_in_step==g_fail_j) throw std::bad_alloc(); }
+  void* p=malloc(n?n:1); if(!p) throw std::bad_alloc(); g_live++; return p; }
+void* operator new[](size_t n){ return counted_alloc(n); }
+void* operator new(size_t n){ return counted_alloc(n); }
+void operator delete[](void* p) noexcept { if(p){ g_live--; free(p);} }
+void operator delete(void* p) noexcept { if(p){ g_live--; free(p);} }
+void operator delete[](void* p, size_t) noexcept { if(p){ g_live--; free(p);} }
+void operator delete(void* p, size_t) noexcept { if(p){ g_live--; free(p);} }
 // program file: first line: nslots nbufs ; then one instruction per line:
 //   op t s1 s2 x y c extbuf   (slot indices, -1 = none; extbuf index or -1)   followed by optional "= v0 v1 ..." to preload the ext buffer
 // after every instruction every live slot is observed and printed.
@@ -156,11 +180,14 @@ int main(int argc, char** argv){
       while(fscanf(f,"%lf",&v)==1){ if(eb>=0 && k<80) bufs[eb][k]=v; k++; int c2=fgetc(f); if(c2=='\n'||c2==EOF) break; ungetc(c2,f);}
     } else if(ch!=EOF) ungetc(ch,f);
     unsigned res[4]={0,0,0,0};
+    { const char* fs=getenv("POOL_FAIL_STEP"); const char* fj=getenv("POOL_FAIL_J");
+      g_armed=(fs&&fj&&atoi(fs)==step); g_fail_j=fj?atoi(fj):-1; g_calls_in_step=0; }
     int rc=h_op(op, t>=0?slots[t]:nullptr, s1>=0?slots[s1]:nullptr, s2>=0?slots[s2]:nullptr, x,y,c, eb>=0?bufs[eb]:nullptr, res);
     // liveness bookkeeping mirrors the driver's: constructing ops make t live on success, destroy makes it dead
-    bool constructs=(op==OP_DEFAULT||op==OP_SIZED||op==OP_EXTERNAL||op==OP_FROMLIST||op==OP_ALIGNED||op==OP_COPYCON||op==OP_MOVECON||op==OP_FROMMATRIX||op==OP_FACTORY||(op==OP_EXPR&&x/32==3));
+    bool constructs=(op==OP_DEFAULT||op==OP_SIZED||op==OP_EXTERNAL||op==OP_FROMLIST||op==OP_ALIGNED||op==OP_COPYCON||op==OP_MOVECON||op==OP_FROMMATRIX||op==OP_FACTORY||(op==OP_EXPR&&x/32==3)||(op==OP_CONVERT&&(x==0||x==5)));
     if(constructs && rc==0 && t>=0) live[t]=1;
     if(op==OP_DESTROY && t>=0) live[t]=0;
+    g_armed=false;
     printf("step %d rc %d res %u\n",step,rc,res[0]);
     for(int i=0;i<nslots;i++){
       if(!live[i]) { printf("  slot %d dead\n",i); continue; }
@@ -180,7 +207,10 @@ int main(int argc, char** argv){
   SU_vector::clear_mem_cache();
   for(int i=0;i<nslots;i++) free(slots[i]);
   for(int i=0;i<nbufs;i++) free(bufs[i]);
+  slots.clear(); slots.shrink_to_fit(); live.clear(); live.shrink_to_fit(); bufs.clear(); bufs.shrink_to_fit();
+  printf("live_blocks %ld\n",g_live);
   printf("done\n");
+  if(g_live!=0){ fprintf(stderr,"LEDGER: %ld block(s) allocated by operator new/new[] were never released\n",g_live); return 68; }
   return 0;
 }
 #endif
